@@ -344,6 +344,23 @@ fn battery_inner<T: Subject + AllPairs>(ctx: &mut Ctx, x: &T, model: &[bool], fu
             b.d(G::Logic, "fresh Bvd | y", |y| basic(&T::bvd_bin(&tw, Op::Or, Form::AR, y)));
             b.d(G::Logic, "fresh Bv ^ y", |y| basic(&T::bv_bin(&ta, Op::Xor, Form::RR, y)));
             b.d(G::Arith, "fresh Bvd * y", |y| basic(&T::bvd_bin(&tw, Op::Mul, Form::RR, y)));
+            // a fresh left operand two storage words longer than y: word loops of the left operand then run past y's used
+            // words (into spare capacity words, which must behave as zeros)
+            if let Ok(tl) = guarded(|| {
+                let mut long = model.to_vec();
+                long.resize(model.len() + 131, false);
+                long[model.len() + 130] = true;
+                let tl: Bvd = build_set(&long);
+                tl
+            }) {
+                b.d(G::Arith, "fresh long Bvd + y", |y| basic(&T::bvd_bin(&tl, Op::Add, Form::AR, y)));
+                b.d(G::Arith, "fresh long Bvd - y", |y| basic(&T::bvd_bin(&tl, Op::Sub, Form::RR, y)));
+                b.d(G::Arith, "fresh long Bvd * y", |y| basic(&T::bvd_bin(&tl, Op::Mul, Form::RR, y)));
+                b.d(G::Logic, "fresh long Bvd ^ y", |y| basic(&T::bvd_bin(&tl, Op::Xor, Form::RR, y)));
+                b.d(G::Logic, "fresh long Bvd & y", |y| basic(&T::bvd_bin(&tl, Op::And, Form::AR, y)));
+                b.d(G::Cmp, "fresh long Bvd cmp y", |y| T::bvd_cmp(&tl, y));
+                b.d(G::Div, "fresh long Bvd % y", |y| if y.is_zero() { None } else { Some(basic(&T::bvd_bin(&tl, Op::Rem, Form::RR, y))) });
+            }
             b.d(G::Edit, "fresh Bvd.append(y)", |y| {
                 let mut c = tw.clone();
                 c.append(y);
